@@ -42,9 +42,34 @@ Two oracle layers (DESIGN section 4, C16):
     plain prefixes under renaming, ``model(x, **model.guess(data))`` must be accepted and have the unit of the
     data; the same for ``param_bounds`` (names are parameters, content independent of the prefixes).  Whatever
     the package returns is judged as it is: an answer of another shape is a violation, never a harness error.
+(f) the documented arguments in every class they come in (``forms_case``): the degree as every kind of integer
+    (numpy integer scalars of 7 dtypes, an element of np.arange / of an integer settings array, the result of
+    np.argmin / of counting, an IntEnum member, an int subclass), prefixes / parameter names / the coordinate
+    name as numpy.str_, (str, Enum) and StrEnum members, str subclasses, the ``params`` of fwhm as any mapping,
+    every calling convention of the signatures: the constructors must build the model (monitor on every
+    constructor: a refusal of documented arguments is ``constructor_raised``) and every answer (value, fwhm,
+    guess, param_bounds, param_names, prefix, degree) is bitwise the one for builtin int / str given positionally.
+(g) second use (``reuse_case``): the same call repeated after every other thing a caller does with a model
+    (refused calls, a unit error half-way, fwhm, guess, accessors, with_prefix, use in composites, display,
+    comparison, copy / deepcopy / pickle, the result fed back, another x) returns bitwise the same; copies answer
+    like the original; the caller's x and parameters are untouched, also when one Variable is x, loc and scale.
+(h) every layout / dtype / decoration of x (``layout_case``): 0..3-d, transposed, strided / inner slices, read-only
+    broadcast, empty, coordinates of data arrays, float32 / int64 / int32, variances on x and / or the parameters
+    (values judged; a scipp VariancesError is a counted refusal; the variance of fwhm = factor^2 var(scale)),
+    integer-valued peak parameters, dims named like parameters / internal names; one shard with 2**20 + 7 and
+    3 x 400001 abscissae.
+(i) the caller's own model classes (``standin_case``): a Model subclass (names from a one-shot iterator) and a
+    subclass of GaussianModel overriding _call, alone, re-prefixed and as parts of (nested) composites.
 """
 
 from __future__ import annotations
+
+import collections
+import copy
+import enum
+import numbers
+import pickle
+import types
 
 import numpy as np
 import scipp as sc
@@ -81,7 +106,13 @@ RULE = (
     'via with_prefix; nested composite with / without a prefix on the outer one; un-prefixed composite in a prefixed '
     'one; related / empty leaf prefixes inside; re-prefixed and un-prefixed again) x coord not given / the '
     'dimension-coordinate by name / another coordinate / data with variances: guess, param_bounds, param_names '
-    'against the documented naming and against the same tree with plain prefixes'
+    'against the documented naming and against the same tree with plain prefixes. In every shard one forms case (degree '
+    'in 13 integer forms x prefix forms, prefix / with_prefix / composite prefix / parameter names / guess coord in 4 '
+    'str forms, fwhm params as 6 mapping classes, 10 calling conventions; every answer against the builtin form), one '
+    'second-use case (15 operations between two identical calls x 5 model kinds, copies, aliased arguments, inputs '
+    'untouched), one layout case (17 layouts / dtypes / variances of x, 16 dim names, parameters with variances / '
+    'integer-valued x 5 model kinds), one case with the caller\'s own Model subclasses alone and as parts; guess '
+    'additionally on data with masks; one shard with x of 2**20 + 7 and 3 x 400001 elements'
 )
 ASSUMPTIONS = [
     'numpy long double (x87 80 bit) evaluates the closed forms with error << 64 eps (mpmath self-test per run)',
@@ -117,6 +148,23 @@ ASSUMPTIONS = [
     'accepted and the result has the unit of the data; estimates from data with variances carry variances (scipp '
     'refuses to broadcast them) and are not fed back',
     'param_bounds maps parameter names of the model to (lower, upper); omitted names are unbounded',
+    'an integer is an integer and a string a string whatever class holds it (numbers.Integral without bool; '
+    'isinstance(., str), judged by its characters): PolynomialModel(degree=d) for such a d in 1..6 and any model with '
+    'such a prefix exist and answer exactly like the ones made from builtin int / str; other degrees (0, negative, '
+    'bool, float, str, > 6) are outside the quantifier and only counted',
+    'variances: the values of a result are those of the definition whether or not x / the parameters carry '
+    'variances; the variances of a model value are scipp\'s business (the in-place evaluation correlates x with '
+    'itself) and not judged; a scipp.VariancesError is a refusal of scipp\'s propagation rules (polynomial of an x '
+    'with variances, scalar parameters with variances broadcast over x) and counted; fwhm = factor x scale carries '
+    'factor^2 x var(scale) (one operand, first order, exact)',
+    'x of integer dtype together with an integer-valued loc, float32 parameters (result precision follows the dtype '
+    'of one operand) and integer-valued polynomial coefficients (the unchanged tree raises DTypeError / computes in '
+    'float32) are not driven: dtypes of the parameters are not part of the quantifier',
+    'a composite\'s param_bounds names exactly the bounded parameters of its parts under their full names (its '
+    'parameters are the union of the component parameters, class docstring): judged for composites that contain '
+    'the caller\'s own model classes',
+    'copy.copy / copy.deepcopy / pickle of a model give a model of the same structure (Python semantics of plain '
+    'objects; with_prefix is documented to return a copy)',
 ]
 TECHNIQUE = ('runtime monitors (sys.monitoring) on Model.__call__, every _call, fwhm, guess, param_bounds, '
              'with_prefix and the constructors; long-double closed forms at the exact abscissae + analytic '
@@ -164,8 +212,10 @@ NESTED_PAIRS = [('a', 'am'), ('', 'amplitude'), ('p_', 'p_p_'), ('l', 'lo'), (''
 # ------------------------------------------------------------------ specs ---
 def base_names(spec):
     k = spec['kind']
-    if k in ('gauss', 'lorentz'):
+    if k in ('gauss', 'lorentz', 'gauss2'):
         return PEAK_NAMES
+    if k == 'line':
+        return ('h', 'k')
     if k == 'pvoigt':
         return (*PEAK_NAMES, 'fraction')
     if k == 'poly':
@@ -206,8 +256,51 @@ class UnitsNotExact(OutOfDomain):
     by ``Monitors.judge_units`` through the independent unit table instead."""
 
 
-def _val(p, allow_variance=False):
-    """Float value of a scalar parameter; OutOfDomain when not a plain finite float scalar."""
+def plain(s):
+    """numpy.str_, str subclasses, (str, Enum) and StrEnum members -> the str they are (their characters);
+    anything else unchanged.  A documented ``str`` argument is judged by its characters, whatever its class."""
+    return str.__str__(s) if isinstance(s, str) and type(s) is not str else s
+
+
+def plain_keys(mapping):
+    """dict with the characters of every str key (any mapping: dict, MappingProxyType, DataGroup, ChainMap ...)."""
+    return {plain(k): mapping[k] for k in mapping}
+
+
+def is_integer(v):
+    """An integer in the sense of the numeric tower (builtin int and its subclasses incl. IntEnum members, every
+    numpy integer scalar) -- bool and numpy.bool_ are not degrees."""
+    return isinstance(v, numbers.Integral) and not isinstance(v, bool | np.bool_)
+
+
+def form_of(v):
+    """Few-valued label of the class of an argument (mechanism key of violations)."""
+    if isinstance(v, bool | np.bool_):
+        return 'bool'
+    if isinstance(v, enum.Enum):
+        return 'IntEnum member' if isinstance(v, int) else ('(str, Enum) / StrEnum member' if isinstance(v, str)
+                                                             else 'Enum member')
+    if isinstance(v, np.generic):
+        return 'numpy integer' if isinstance(v, np.integer) else ('numpy.str_' if isinstance(v, np.str_)
+                                                                  else 'numpy scalar')
+    if type(v) in (int, str):
+        return type(v).__name__
+    if isinstance(v, int | str):
+        return ('int' if isinstance(v, int) else 'str') + ' subclass'
+    return type(v).__name__
+
+
+def has_variances(x, params):
+    try:
+        return (getattr(x, 'variances', None) is not None
+                or any(getattr(v, 'variances', None) is not None for v in params.values()))
+    except Exception:  # noqa: BLE001
+        return False
+
+
+def _val(p, allow_variance=True):
+    """Float value of a scalar parameter; OutOfDomain when not a finite number in a 0-d variable.  Variances do
+    not change what the value of the definition is (the values of a result must be right with or without)."""
     if not isinstance(p, sc.Variable) or p.ndim != 0 or (p.variance is not None and not allow_variance):
         raise OutOfDomain('parameter is not a plain scalar')
     if p.dtype not in (sc.DType.float64, sc.DType.float32, sc.DType.int64, sc.DType.int32):
@@ -243,6 +336,15 @@ def expected(spec, x: sc.Variable, params: dict):
             raise OutOfDomain('overflow range')
         v, t = pk.polynomial_ref(xv, cs)
         return v, t, inner['a0'].unit
+    if kind == 'line':
+        # the caller's own model class (documented extension point of Model): h + k x
+        cs = [_val(inner['h']), _val(inner['k'])]
+        if inner['k'].unit != inner['h'].unit / x.unit:
+            raise OutOfDomain('units of the caller\'s own model')
+        if max(abs(c) for c in cs) > 1e30 or (xv.size and np.max(np.abs(xv)) > 1e30):
+            raise OutOfDomain('overflow range')
+        v, t = pk.polynomial_ref(xv, cs)
+        return v, t, inner['h'].unit
     a, m, s = _val(inner['amplitude']), _val(inner['loc']), _val(inner['scale'])
     if not (1e-6 * (1 - 1e-12) <= s <= 1e6 * (1 + 1e-12)):
         raise OutOfDomain('scale outside 1e-6..1e6')
@@ -251,6 +353,9 @@ def expected(spec, x: sc.Variable, params: dict):
     unit = inner['amplitude'].unit / x.unit
     if kind == 'gauss':
         v, t = pk.gaussian_ref(xv, a, m, s)
+    elif kind == 'gauss2':
+        # the caller's subclass of GaussianModel whose _call doubles the inherited curve (2 a is exact)
+        v, t = pk.gaussian_ref(xv, 2.0 * a, m, s)
     elif kind == 'lorentz':
         v, t = pk.lorentzian_ref(xv, a, m, s)
     else:
@@ -309,6 +414,8 @@ def si_expected(spec, x: sc.Variable, params: dict):
             return {'relation': 'undecided', 'why': why}
         v, t = pk.sum_ref(li['value'], li['tol'], ri['value'], ri['tol'])
         return {'relation': 'consistent', 'value': v, 'tol': t, 'dim': li['dim'], 'why': []}
+    if kind in ('line', 'gauss2'):
+        raise OutOfDomain('units of the caller\'s own model')
     xv = np.asarray(x.values, dtype=np.float64).astype(LD)
     fx, dx = _uinfo(x.unit)
     if kind == 'poly':
@@ -413,15 +520,51 @@ class Monitors:
         self.reg[id(model)] = (model, spec)
 
     def on_init(self, kind):
+        """Constructor of a leaf model.  Documented arguments: ``prefix: str`` (any str: numpy.str_, subclasses and
+        str-valued Enum members are strs) and, for the polynomial, ``degree: int`` (quantifier: 1..6; an integer
+        is an integer whatever its class -- numpy integer scalars, IntEnum members, int subclasses): such a
+        model exists ("for all ... polynomial degree 1..6, any prefix strings"), a refusal is a violation."""
         def h(ev):
-            if ev.exc is not None:
-                return
             a = ev.args
-            spec = {'kind': kind, 'prefix': a.get('prefix', '')}
+            prefix, degree = a.get('prefix', ''), a.get('degree')
+            documented = isinstance(prefix, str)
             if kind == 'poly':
-                spec['degree'] = int(a['degree'])
+                try:
+                    documented = documented and is_integer(degree) and 1 <= int(degree) <= 6
+                except Exception:  # noqa: BLE001
+                    documented = False
+            if ev.exc is not None:
+                if documented:
+                    what = f'degree={degree!r} ({type(degree).__name__}), ' if kind == 'poly' else ''
+                    self.ctx.violation(
+                        'constructor_raised',
+                        f'{kind} model could not be created with {what}prefix={prefix!r} ({type(prefix).__name__}): '
+                        f'{type(ev.exc).__name__}: {ev.exc}',
+                        {'model': kind, 'degree': repr(degree), 'degree_type': type(degree).__name__,
+                         'prefix': repr(prefix), 'prefix_type': type(prefix).__name__},
+                        model=kind, exc=type(ev.exc).__name__,
+                        degree_form=form_of(degree) if kind == 'poly' else '-', prefix_form=form_of(prefix))
+                else:
+                    self.ctx.count(f'constructor_refused_undocumented_arguments:{kind}:{type(ev.exc).__name__}')
+                return
+            if not isinstance(prefix, str):
+                self.ctx.count('constructor_accepted_non_str_prefix')
+                return
+            spec = {'kind': kind, 'prefix': plain(prefix)}
+            if kind == 'poly':
+                try:
+                    spec['degree'] = int(degree)
+                except Exception:  # noqa: BLE001
+                    self.ctx.count('constructor_accepted_non_integer_degree')
+                    return
+                if not documented:
+                    self.ctx.count('constructor_accepted_degree_outside_1..6')
             self._register(a['self'], spec)
             self.ctx.event('init.' + kind)
+            if type(prefix) is not str:
+                self.ctx.event('init.prefix_form: ' + form_of(prefix))
+            if kind == 'poly' and type(degree) is not int:
+                self.ctx.event('init.degree_form: ' + form_of(degree))
         return h
 
     def on_comp_init(self, ev):
@@ -431,7 +574,11 @@ class Monitors:
             self.ctx.count('composite_of_unobserved_parts')
             return
         overlap = spec_names(ls) & spec_names(rs)
-        case = {'left': spec_str(ls), 'right': spec_str(rs), 'prefix': a.get('prefix', '')}
+        cprefix = plain(a.get('prefix', ''))
+        case = {'left': spec_str(ls), 'right': spec_str(rs), 'prefix': cprefix}
+        if not isinstance(cprefix, str):
+            self.ctx.count('composite_with_non_str_prefix')
+            return
         if ev.exc is not None:
             if overlap and isinstance(ev.exc, ValueError):
                 self.ctx.count('composite_overlap_refused')
@@ -447,7 +594,9 @@ class Monitors:
             # not part of the property text (the docstring asks the caller to disambiguate)
             self.ctx.count('composite_overlap_accepted')
             return
-        self._register(a['self'], {'kind': 'comp', 'prefix': a.get('prefix', ''), 'left': ls, 'right': rs})
+        self._register(a['self'], {'kind': 'comp', 'prefix': cprefix, 'left': ls, 'right': rs})
+        if type(a.get('prefix', '')) is not str:
+            self.ctx.event('init.prefix_form: ' + form_of(a.get('prefix', '')))
         self.ctx.event('init.comp')
 
     def on_with_prefix(self, ev):
@@ -468,10 +617,15 @@ class Monitors:
                                f'{type(ev.result).__name__}, expected a copy of the model',
                                {'spec': spec_str(spec), 'prefix': ev.args.get('prefix')}, where='with_prefix')
             return
+        if not isinstance(ev.args['prefix'], str):
+            self.ctx.count('with_prefix_non_str')
+            return
         new = dict(spec)
-        new['prefix'] = ev.args['prefix']
+        new['prefix'] = plain(ev.args['prefix'])
         self._register(ev.result, new)
         self.ctx.event('with_prefix')
+        if type(ev.args['prefix']) is not str:
+            self.ctx.event('init.prefix_form: ' + form_of(ev.args['prefix']))
 
     # -- evaluation -----------------------------------------------------------
     def on_call(self, ev):
@@ -489,7 +643,7 @@ class Monitors:
 
     def judge_call(self, ev, spec):
         ctx = self.ctx
-        model, x, params = ev.args['self'], ev.args['x'], ev.args['params']
+        model, x, params = ev.args['self'], ev.args['x'], plain_keys(ev.args['params'])
         if spec is None:
             spec = self.spec_of(model)
         if spec is None:
@@ -527,6 +681,14 @@ class Monitors:
             return
         if ev.depth == 0:
             ctx.count('judged_top_level_calls:' + self.origin)
+        with_var = has_variances(x, params)
+        if with_var and isinstance(ev.exc, sc.VariancesError):
+            # scipp refuses operations that would correlate the variances of one operand with themselves
+            # (broadcast of a scalar with variances, x with variances entering several terms): a refusal
+            # of scipp's variance propagation, not of the model
+            ctx.event('variances.refusal')
+            ctx.count('variances_refused:' + kind)
+            return
         if ev.exc is not None:
             ctx.violation('raised_on_valid',
                           f'{spec_str(spec)} raised {type(ev.exc).__name__}: {ev.exc} for a complete parameter set',
@@ -546,6 +708,8 @@ class Monitors:
                           f'{x.dims}{x.shape}', case, model=kind)
             return
         got = np.asarray(res.values, dtype=np.float64)
+        if with_var:
+            ctx.event('variances.values_judged')  # the values of a result are judged; its variances are scipp's
         self._compare(got, exp, tol, x, 'pointwise.' + kind, case, kind)
         if kind == 'comp':
             self._judge_parts(ev, spec, params, got, case)
@@ -652,7 +816,7 @@ class Monitors:
         for part in (spec['left'], spec['right']):
             names = spec_names(part)
             for c in subs:
-                if set(c.args['params']) == names:
+                if set(plain_keys(c.args['params'])) == names:
                     try:
                         self.judge_call(c, part)
                     except OutOfDomain as e:
@@ -694,17 +858,18 @@ class Monitors:
         subs = _sub_calls(ev)
         ln, rn = spec_names(spec['left']), spec_names(spec['right'])
         p = spec['prefix']
-        left = [c for c in subs if set(c.args['params']) == ln]
-        right = [c for c in subs if set(c.args['params']) == rn]
+        left = [c for c in subs if set(plain_keys(c.args['params'])) == ln]
+        right = [c for c in subs if set(plain_keys(c.args['params'])) == rn]
         if len(left) != 1 or len(right) != 1 or len(subs) != 2:
             ctx.violation('composite_routing',
                           f'{spec_str(spec)}: sub-calls observed with parameter names '
-                          f'{[sorted(c.args["params"]) for c in subs]}, expected {sorted(ln)} and {sorted(rn)}',
+                          f'{[sorted(plain_keys(c.args["params"])) for c in subs]}, expected {sorted(ln)} and '
+                          f'{sorted(rn)}',
                           case, model='comp', mechanism='names')
             return
         le, re_ = left[0], right[0]
         for sub in (le, re_):
-            for k, v in sub.args['params'].items():
+            for k, v in plain_keys(sub.args['params']).items():
                 w = params[p + k]
                 same = v is w or (isinstance(v, sc.Variable) and isinstance(w, sc.Variable) and sc.identical(v, w))
                 if not same:
@@ -738,7 +903,7 @@ class Monitors:
                 return
             ctx = self.ctx
             try:
-                x, params = ev.args['x'], ev.args['params']
+                x, params = ev.args['x'], plain_keys(ev.args['params'])
                 keys = set(params)
                 if kind == 'poly':
                     spec = {'kind': 'poly', 'prefix': '', 'degree': len(keys) - 1}
@@ -775,7 +940,15 @@ class Monitors:
             if spec is None:
                 ctx.count('fwhm_on_unobserved_model')
                 return
-            params = ev.args['params']
+            try:
+                # "a dict": any mapping a caller holds (dict subclasses, MappingProxyType, DataGroup, ChainMap);
+                # str keys of any class
+                params = plain_keys(ev.args['params'])
+            except Exception:  # noqa: BLE001
+                ctx.count('fwhm_params_not_a_mapping')
+                return
+            if type(ev.args['params']) is not dict:
+                ctx.event('fwhm_mapping: ' + type(ev.args['params']).__name__)
             case = {'spec': spec_str(spec), 'params': describe_params(params)}
             try:
                 if kind is None:
@@ -845,6 +1018,21 @@ class Monitors:
                                       f'{spec_str(spec)}.fwhm = {float(w.value)!r} for a dict ({relation}) whose '
                                       f'{own!r} = {s_val!r}: the definition gives {float(want)!r}', case,
                                       model=kind, relation=relation, names=label)
+                    elif scale.variance is not None:
+                        # fwhm = c * scale, one operand with a variance: first-order propagation is c^2 var
+                        fac = pk.GAUSS_FWHM_FACTOR if kind == 'gauss' else pk.TWO
+                        want_var = fac * fac * LD(float(scale.variance))
+                        ctx.event('fwhm_variance')
+                        if w.variance is None or not np.isfinite(w.variance):
+                            ctx.violation('fwhm_variance', f'{spec_str(spec)}.fwhm of a scale with variance '
+                                          f'{scale.variance!r} has variance {w.variance!r}', case, model=kind,
+                                          mechanism='dropped')
+                        elif float(want_var) > 0 and (
+                                float(abs(LD(float(w.variance)) - want_var) / want_var) > 2 * pk.K * EPS):
+                            ctx.violation('fwhm_variance', f'{spec_str(spec)}.fwhm of a scale with variance '
+                                          f'{scale.variance!r} has variance {w.variance!r}, first-order propagation '
+                                          f'of factor x scale gives {float(want_var)!r}', case, model=kind,
+                                          mechanism='value')
             except OutOfDomain:
                 ctx.count('out_of_domain:fwhm')
             except Exception:  # noqa: BLE001
@@ -861,7 +1049,7 @@ class Monitors:
         if spec is None:
             return
         self.ctx.event('guess')
-        coord = ev.args.get('coord')
+        coord = plain(ev.args.get('coord'))
         self.ctx.event('guess.coord=None' if coord is None else 'guess.coord=name')
         case = {'spec': spec_str(spec), 'coord': coord}
         judge_guess_names(self.ctx, spec, ev.result, case, 'monitor')
@@ -1957,8 +2145,9 @@ GM_NONE = 'guess: coord not given'
 GM_DIM = 'guess: coord = the dimension-coordinate by name'
 GM_OTHER = 'guess: coord = another coordinate of the data'
 GM_VAR = 'guess: data with variances'
+GM_MASK = 'guess: data with masks'
 GUESS_CLASSES = [GC_LEAF, GC_CTOR, GC_WITH, GC_NEST_L, GC_NEST_R, GC_NEST_BOTH, GC_OUTER_ONLY, GC_LEAVES,
-                 GC_BARE_LEAF, GC_REPREFIX, GC_UNPREFIX, GM_NONE, GM_DIM, GM_OTHER, GM_VAR]
+                 GC_BARE_LEAF, GC_REPREFIX, GC_UNPREFIX, GM_NONE, GM_DIM, GM_OTHER, GM_VAR, GM_MASK]
 
 GUESS_SHAPES = {'pair': ('c', 0, 1), 'nested left': ('c', ('c', 0, 1), 2), 'nested right': ('c', 0, ('c', 1, 2))}
 CANONICAL_LEAF_PREFIXES = ['b_', 'g_', 'h_']
@@ -2029,7 +2218,10 @@ def guess_data(rng, xunit, tunit, yunit, dim, tname):
     with_var = data.copy()
     with_var.variances = (0.05 * ymag) ** 2 * (1.0 + rng.uniform(size=n))
     rekeyed = sc.DataArray(data.data, coords={dim: data.coords[tname]})
-    return data, with_var, rekeyed
+    masked = data.copy()
+    masked.masks['caller'] = sc.array(dims=[dim], values=rng.random(n) < 0.3)
+    masked.masks['edge'] = sc.array(dims=[dim], values=np.arange(n) < 2)
+    return data, with_var, rekeyed, masked
 
 
 def ask_guess(model, data, coord, explicit):
@@ -2149,9 +2341,10 @@ def guess_case(rng, ctx, mon, M):
     yunit = pick(rng, A_UNITS)
     dim = pick(rng, DIMS)
     tname = pick(rng, [n for n in ('t', 'tof', 'x', 'λ', 'other coord') if n != dim])
-    data, with_var, rekeyed = guess_data(rng, xunit, tunit, yunit, dim, tname)
+    data, with_var, rekeyed, masked = guess_data(rng, xunit, tunit, yunit, dim, tname)
     modes = [(GM_NONE, data, None, False, dim), (GM_DIM, data, dim, True, dim),
-             (GM_OTHER, data, tname, True, tname), (GM_VAR, with_var, None, False, dim)]
+             (GM_OTHER, data, tname, True, tname), (GM_VAR, with_var, None, False, dim),
+             (GM_MASK, masked, None, False, dim)]
     for m_ in modes:
         ctx.hit(m_[0])
     kinds = [pick(rng, ['poly', 'poly', *PEAKS]), pick(rng, PEAKS), pick(rng, ['poly', *PEAKS])]
@@ -2580,6 +2773,814 @@ def comp_unit_case(rng, ctx, mon, M):
     return sig, False, case
 
 
+# ------------------------------------------- the documented arguments in every form ---
+# "polynomial degree 1..6, any prefix strings": an integer is an integer and a string is a string whatever class
+# holds it.  A degree that was computed (an element of np.arange, the result of np.argmin / of counting, an entry
+# of an integer array of settings) is a numpy integer; names taken from arrays / enumerations of settings are
+# numpy.str_ / str-valued Enum members.  Every such form must give the model the builtin form gives: same names,
+# bitwise the same values.  The same for the names of the parameters handed to __call__ / fwhm and for the
+# coordinate name given to guess; for every calling convention the signatures allow; for any mapping as the
+# ``params`` of fwhm.
+class _Deg(enum.IntEnum):
+    ONE = 1
+    TWO = 2
+    THREE = 3
+    FOUR = 4
+    FIVE = 5
+    SIX = 6
+
+
+class _IntSub(int):
+    """A subclass of int that is not bool."""
+
+
+class _StrSub(str):
+    """A subclass of str."""
+    __slots__ = ()
+
+
+def _str_enum(s):
+    return enum.Enum('SettingName', {'MEMBER': s}, type=str).MEMBER
+
+
+def _strenum(s):
+    return enum.StrEnum('SettingStrEnum', {'MEMBER': s}).MEMBER
+
+
+DEGREE_FORMS = {
+    'np.int64': np.int64, 'np.int32': np.int32, 'np.int16': np.int16, 'np.int8': np.int8, 'np.uint8': np.uint8,
+    'np.uint64': np.uint64, 'np.intp': np.intp,
+    'element of np.arange': lambda d: np.arange(1, 7)[d - 1],
+    'result of np.argmin': lambda d: np.argmin(np.r_[np.ones(d), 0.0, 1.0]),
+    'count of a boolean array': lambda d: np.sum(np.arange(8) < d),
+    'element of an integer settings array': lambda d: np.array([[0, d], [d, 0]], dtype=np.int32)[1, 0],
+    'IntEnum member': _Deg,
+    'int subclass': _IntSub,
+}
+STR_FORMS = {'numpy.str_': np.str_, '(str, Enum) member': _str_enum, 'StrEnum member': _strenum,
+             'str subclass': _StrSub}
+FC_DEGREE = 'degree given as: '
+FC_PREFIX = 'prefix given as: '
+FC_WITH_PREFIX = 'with_prefix given: '
+FC_COMP_PREFIX = 'composite prefix given as: '
+FC_KEYS = 'parameter names given as: '
+FC_COORD = 'guess coord given as: '
+CONVENTIONS = ['x by keyword', 'unbound Model.__call__(model, x, **params)', 'type(model).__call__',
+               'bound model.__call__', 'fwhm(params=...)', 'guess(data=..., coord=...)', 'with_prefix(prefix=...)',
+               'CompositeModel(left=..., right=..., prefix=...)', 'CompositeModel(left, right) without prefix',
+               'left.__add__(right)']
+FC_CONV = 'convention: '
+MAPPINGS = {'MappingProxyType': types.MappingProxyType, 'OrderedDict': collections.OrderedDict,
+            'UserDict': collections.UserDict, 'DataGroup': sc.DataGroup,
+            'ChainMap': lambda d: collections.ChainMap(dict(list(d.items())[:1]), dict(list(d.items())[1:])),
+            'dict subclass': type('ParamDict', (dict,), {})}
+FC_MAPPING = 'fwhm params given as: '
+FORM_CLASSES = ([FC_DEGREE + k for k in DEGREE_FORMS] + [FC_PREFIX + k for k in STR_FORMS]
+                + [FC_WITH_PREFIX + k for k in STR_FORMS] + [FC_COMP_PREFIX + k for k in STR_FORMS]
+                + [FC_KEYS + k for k in STR_FORMS] + [FC_COORD + k for k in STR_FORMS]
+                + [FC_CONV + k for k in CONVENTIONS] + [FC_MAPPING + k for k in MAPPINGS])
+
+
+def modest_leaf_values(rng, ctx, spec, xunit, yunit, centre, width):
+    """Values of one leaf (Variables by base name, numbers of a peak or None) around centre / width."""
+    if spec['kind'] == 'poly':
+        _, pv, _ = draw_poly(rng, ctx, spec['degree'], xunit, yunit)
+        return pv, None
+    if spec['kind'] == 'line':
+        uy, ux = sc.Unit(yunit), sc.Unit(xunit)
+        h = float(rng.uniform(-2, 2))
+        k = float(rng.uniform(-2, 2) / max(abs(centre), width))
+        return {'h': sc.scalar(h, unit=uy), 'k': sc.scalar(k, unit=uy / ux)}, None
+    kind = 'gauss' if spec['kind'] == 'gauss2' else spec['kind']
+    vals, _ = draw_peak_values(rng, ctx, kind, True)
+    vals['scale'] = float(np.clip(width * logu(rng, -0.5, 0.5), 1e-6, 1e6))
+    vals['loc'] = centre + width * float(rng.uniform(-2, 2))
+    vals['amplitude'] = float(np.sign(vals['amplitude']) * rng.uniform(0.5, 2.0) * 2.5 * vals['scale'])
+    return peak_vars(vals, xunit, sc.Unit(yunit) * sc.Unit(xunit)), vals
+
+
+def modest_setting(rng):
+    xunit, yunit = pick(rng, X_UNITS), pick(rng, A_UNITS)
+    centre = logu(rng, -1, 2) * (1.0 if rng.random() < 0.5 else -1.0)
+    width = abs(centre) * logu(rng, -2, 0) if rng.random() < 0.6 else logu(rng, -1, 1)
+    return xunit, yunit, centre, float(np.clip(width, 1e-4, 1e4))
+
+
+def own_curve_data(rng, xunit, yunit, centre, width, dim, masked=False):
+    """Data for guess from own numbers (a bump on a slope, irregular abscissae)."""
+    n = int(rng.integers(30, 50))
+    u = np.sort(rng.uniform(-6, 6, size=n))
+    yv = 0.3 + 0.05 * u + 2.0 * np.exp(-0.5 * ((u - 0.4) / 0.9) ** 2) + 0.01 * rng.normal(size=n)
+    da = sc.DataArray(sc.array(dims=[dim], values=yv, unit=yunit),
+                      coords={dim: sc.array(dims=[dim], values=centre + width * u, unit=xunit)})
+    if masked:
+        da.masks['caller'] = sc.array(dims=[dim], values=rng.random(n) < 0.3)
+    return da
+
+
+def answer_bits(a):
+    """Comparable content of anything a model hands back (Variable, dict of Variables / bounds, set)."""
+    if isinstance(a, sc.Variable):
+        return bits_full(a)
+    if isinstance(a, str):
+        return plain(a)
+    if isinstance(a, dict):
+        return {plain(k): answer_bits(v) for k, v in a.items()}
+    if isinstance(a, set | frozenset):
+        return sorted(plain(k) for k in a)
+    return repr(a)
+
+
+def same_answer(ctx, got, ref, what, case, **keys):
+    """``got`` (from the form under test) against ``ref`` (from the builtin form): the same content."""
+    ctx.event('form_judged')
+    if answer_bits(got) != answer_bits(ref):
+        c = dict(case)
+        c['compared'] = what
+        ctx.violation('form_dependence', f'{what}: the answer differs from the answer for the same arguments given '
+                      f'as builtin int / str, positionally ({keys})', c, **keys)
+        return False
+    return True
+
+
+def attempt(f):
+    """('ok', result) / ('raised', exception)."""
+    try:
+        return 'ok', f()
+    except Exception as e:  # noqa: BLE001
+        return 'raised', e
+
+
+def answers(m, x, params, data):
+    """Everything a model can be asked: value, fwhm, guess, param_bounds, param_names, prefix."""
+    out = {'value': attempt(lambda: m(x, **params)), 'fwhm': attempt(lambda: m.fwhm(params)),
+           'guess': attempt(lambda: m.guess(data)), 'param_bounds': attempt(lambda: m.param_bounds),
+           'param_names': attempt(lambda: m.param_names), 'prefix': attempt(lambda: m.prefix)}
+    return out
+
+
+def compare_answers(ctx, got, ref, label, case, **keys):
+    for q, (status, a) in got.items():
+        rs, ra = ref[q]
+        if rs == 'raised':
+            # the builtin form refuses (fwhm of a background model ...): the same kind of refusal is expected
+            ctx.event('form_judged')
+            if status != 'raised' or type(a) is not type(ra):
+                ctx.violation('form_dependence', f'{label}: {q} raised {type(ra).__name__} for the builtin form and '
+                              f'{"returned" if status == "ok" else "raised " + type(a).__name__} for this one',
+                              case, quantity=q, **keys)
+            continue
+        if status == 'raised':
+            ctx.event('form_judged')
+            ctx.violation('form_dependence', f'{label}: {q} raised {type(a).__name__}: {a}; the same arguments given '
+                          f'as builtin int / str are accepted', case, quantity=q, **keys)
+            continue
+        same_answer(ctx, a, ra, f'{label}: {q}', case, quantity=q, **keys)
+
+
+def judge_documented_names(ctx, m, spec, case, **keys):
+    """param_names / prefix / degree of a model against the documented naming of its spec."""
+    ctx.event('param_names_judged')
+    st, pn = attempt(lambda: m.param_names)
+    if st != 'ok' or not isinstance(pn, set | frozenset) or {plain(k) for k in pn} != set(spec_names(spec)):
+        ctx.violation('param_names', f'{spec_str(spec)}.param_names = {pn!r:.300}, documented naming gives '
+                      f'{sorted(spec_names(spec))}', case, model=spec['kind'])
+    st, pf = attempt(lambda: m.prefix)
+    ctx.event('prefix_property_judged')
+    if st != 'ok' or not isinstance(pf, str) or plain(pf) != spec['prefix']:
+        ctx.violation('prefix_property', f'{spec_str(spec)}.prefix = {pf!r}', case, model=spec['kind'], **keys)
+    if spec['kind'] == 'poly':
+        st, dg = attempt(lambda: m.degree)
+        ctx.event('degree_property_judged')
+        if st != 'ok' or not is_integer(dg) or int(dg) != spec['degree']:
+            ctx.violation('degree_property', f'{spec_str(spec)}.degree = {dg!r}', case, model='poly', **keys)
+
+
+def forms_case(rng, ctx, mon, M):
+    xunit, yunit, centre, width = modest_setting(rng)
+    dim = pick(rng, DIMS)
+    x = sc.array(dims=[dim], values=centre + width * rng.uniform(-4, 4, size=5), unit=xunit)
+    data = own_curve_data(rng, xunit, yunit, centre, width, dim)
+    case = {'kind': 'forms', 'x_unit': xunit, 'y_unit': yunit, 'x': describe_x(x)}
+
+    def reference(spec):
+        m = build_model(rng, M, spec, use_add=False)
+        lv = [modest_leaf_values(rng, ctx, leaf, xunit, yunit, centre, width)[0] for leaf in leaves_of(spec)]
+        params = full_params(spec, lv)
+        return m, params, answers(m, x, params, data)
+
+    def judge(make, spec, params, ref, label, **keys):
+        """The model ``make()`` builds (arguments in the form under test) against the builtin form."""
+        st, m = attempt(make)
+        if st == 'raised':
+            ctx.count('form_model_not_built:' + type(m).__name__)  # judged by the constructor monitors
+            return None
+        got = mon.spec_of(m)
+        if got != spec:
+            ctx.inconclusive_because('harness: observed model structure differs from the plan: '
+                                     f'{spec_str(got) if got else got} vs {spec_str(spec)}')
+            return None
+        c = dict(case)
+        c['model'] = spec_str(spec)
+        c['form'] = label
+        judge_documented_names(ctx, m, spec, c, **keys)
+        compare_answers(ctx, answers(m, x, shuffled(rng, params), data), ref, label, c, **keys)
+        return m
+
+    # ---- the polynomial degree in every integer form (x the prefix forms in turn)
+    shift = int(rng.integers(0, 6))
+    sforms = list(STR_FORMS.items())
+    for j, (dlabel, dform) in enumerate(DEGREE_FORMS.items()):
+        d = 1 + (j + shift) % 6
+        p = draw_prefix(rng, ctx)
+        plabel, pform = ('str', str) if j % 2 == 0 else sforms[(j // 2) % len(sforms)]
+        spec = {'kind': 'poly', 'prefix': p, 'degree': d}
+        _, params, ref = reference(spec)
+        ctx.hit(FC_DEGREE + dlabel)
+        m = judge(lambda: M.PolynomialModel(degree=dform(d), prefix=pform(p)),  # noqa: B023
+                  spec, params, ref, FC_DEGREE + dlabel, arg='degree', form=dlabel)
+        if m is None:
+            continue
+        # ... and usable as the background of a composite
+        q = 'pk9_' if not p.startswith('pk9') else 'zz9_'
+        kind = pick(rng, PEAKS)
+        cspec = {'kind': 'comp', 'prefix': '', 'left': spec, 'right': {'kind': kind, 'prefix': q}}
+        _, cparams, cref = reference(cspec)
+        judge(lambda: m + build_leaf(M, {'kind': kind, 'prefix': q}),  # noqa: B023
+              cspec, cparams, cref, FC_DEGREE + dlabel + ' (in a composite)', arg='degree', form=dlabel)
+    # ---- prefixes in every str form: constructor, with_prefix, composite prefix -- every model kind
+    for flabel, form in STR_FORMS.items():
+        for kind in (*PEAKS, 'poly'):
+            p = draw_prefix(rng, ctx)
+            spec = {'kind': kind, 'prefix': p}
+            if kind == 'poly':
+                spec['degree'] = int(rng.integers(1, 7))
+            _, params, ref = reference(spec)
+            ctx.hit(FC_PREFIX + flabel)
+            cls = {'gauss': M.GaussianModel, 'lorentz': M.LorentzianModel, 'pvoigt': M.PseudoVoigtModel}.get(kind)
+            if cls is None:
+                judge(lambda: M.PolynomialModel(degree=spec['degree'], prefix=form(p)),  # noqa: B023
+                      spec, params, ref, FC_PREFIX + flabel, arg='prefix', form=flabel)
+            else:
+                judge(lambda: cls(prefix=form(p)), spec, params, ref, FC_PREFIX + flabel,  # noqa: B023
+                      arg='prefix', form=flabel)
+            ctx.hit(FC_WITH_PREFIX + flabel)
+            other = draw_prefix(rng, ctx, avoid=(p,))
+            judge(lambda: build_leaf(M, {**spec, 'prefix': other}).with_prefix(form(p)),  # noqa: B023
+                  spec, params, ref, FC_WITH_PREFIX + flabel, arg='with_prefix', form=flabel)
+        # the prefix of a composite (constructor and with_prefix)
+        lp, rp = pick(rng, [('b_', 'g_'), ('', 'p_'), ('bkg_', ''), ('a', 'am')])
+        cp = draw_prefix(rng, ctx, avoid=('',))
+        cspec = {'kind': 'comp', 'prefix': cp, 'left': {'kind': 'poly', 'prefix': lp, 'degree': 2},
+                 'right': {'kind': pick(rng, PEAKS), 'prefix': rp}}
+        _, cparams, cref = reference(cspec)
+        ctx.hit(FC_COMP_PREFIX + flabel)
+        judge(lambda: M.CompositeModel(build_leaf(M, cspec['left']), build_leaf(M, cspec['right']),  # noqa: B023
+                                       prefix=form(cp)),  # noqa: B023
+              cspec, cparams, cref, FC_COMP_PREFIX + flabel, arg='composite prefix', form=flabel)
+        judge(lambda: (build_leaf(M, cspec['left']) + build_leaf(M, cspec['right'])).with_prefix(form(cp)),  # noqa: B023
+              cspec, cparams, cref, FC_COMP_PREFIX + flabel + ' (with_prefix)', arg='composite prefix', form=flabel)
+    # ---- parameter names / coordinate name in every str form; mappings; conventions -- on fixed models
+    specs = [{'kind': k, 'prefix': draw_prefix(rng, ctx)} for k in PEAKS]
+    specs.append({'kind': 'poly', 'prefix': draw_prefix(rng, ctx), 'degree': int(rng.integers(1, 7))})
+    specs.append({'kind': 'comp', 'prefix': draw_prefix(rng, ctx, avoid=('',)),
+                  'left': {'kind': 'poly', 'prefix': 'b_', 'degree': 1}, 'right': {'kind': pick(rng, PEAKS),
+                                                                                   'prefix': 'g_'}})
+    for spec in specs:
+        m, params, ref = reference(spec)
+        kind = spec['kind']
+        c = dict(case)
+        c['model'] = spec_str(spec)
+
+        def cmp(label, quantity, f, **keys):
+            st, a = attempt(f)
+            rs, ra = ref[quantity]  # noqa: B023
+            ctx.event('form_judged')
+            if st == 'raised':
+                if rs != 'raised' or type(a) is not type(ra):
+                    ctx.violation('form_dependence', f'{label}: {quantity} of {spec_str(spec)} raised '  # noqa: B023
+                                  f'{type(a).__name__}: {a}', c, quantity=quantity, **keys)  # noqa: B023
+            elif rs == 'raised':
+                ctx.violation('form_dependence', f'{label}: {quantity} of {spec_str(spec)} returned; the plain call '  # noqa: B023
+                              f'raised {type(ra).__name__}', c, quantity=quantity, **keys)  # noqa: B023
+            else:
+                same_answer(ctx, a, ra, f'{label}: {quantity} of {spec_str(spec)}', c,  # noqa: B023
+                            quantity=quantity, **keys)
+
+        for flabel, form in STR_FORMS.items():
+            ctx.hit(FC_KEYS + flabel)
+            fk = {form(k): v for k, v in shuffled(rng, params).items()}
+            cmp(FC_KEYS + flabel, 'value', lambda: m(x, **fk), arg='parameter names', form=flabel)  # noqa: B023
+            cmp(FC_KEYS + flabel, 'fwhm', lambda: m.fwhm(fk), arg='parameter names', form=flabel)  # noqa: B023
+            ctx.hit(FC_COORD + flabel)
+            cmp(FC_COORD + flabel, 'guess', lambda: m.guess(data, coord=form(dim)),  # noqa: B023
+                arg='coord', form=flabel)
+        for mlabel, mk in MAPPINGS.items():
+            ctx.hit(FC_MAPPING + mlabel)
+            cmp(FC_MAPPING + mlabel, 'fwhm', lambda: m.fwhm(mk(dict(params))),  # noqa: B023
+                arg='params mapping', form=mlabel)
+            cmp(FC_MAPPING + mlabel, 'value', lambda: m(x, **mk(dict(params))),  # noqa: B023
+                arg='params mapping', form=mlabel)
+        conv = {
+            'x by keyword': ('value', lambda: m(x=x, **params)),  # noqa: B023
+            'unbound Model.__call__(model, x, **params)': ('value', lambda: M.Model.__call__(m, x, **params)),  # noqa: B023
+            'type(model).__call__': ('value', lambda: type(m).__call__(m, x, **params)),  # noqa: B023
+            'bound model.__call__': ('value', lambda: m.__call__(x, **params)),  # noqa: B023
+            'fwhm(params=...)': ('fwhm', lambda: m.fwhm(params=params)),  # noqa: B023
+            'guess(data=..., coord=...)': ('guess', lambda: m.guess(data=data, coord=dim)),  # noqa: B023
+        }
+        for clabel, (quantity, f) in conv.items():
+            ctx.hit(FC_CONV + clabel)
+            cmp(FC_CONV + clabel, quantity, f, arg='convention', form=clabel)
+        # constructors / with_prefix by keyword
+        ctx.hit(FC_CONV + 'with_prefix(prefix=...)')
+        other = draw_prefix(rng, ctx, avoid=(spec['prefix'],))
+        judge(lambda: build_model(rng, M, {**spec, 'prefix': other}, False).with_prefix(prefix=spec['prefix']),  # noqa: B023
+              spec, params, ref, FC_CONV + 'with_prefix(prefix=...)', arg='convention', form='with_prefix(prefix=...)')
+        if kind == 'comp':
+            ctx.hit(FC_CONV + 'CompositeModel(left=..., right=..., prefix=...)')
+            judge(lambda: M.CompositeModel(left=build_leaf(M, spec['left']), right=build_leaf(M, spec['right']),  # noqa: B023
+                                           prefix=spec['prefix']),  # noqa: B023
+                  spec, params, ref, FC_CONV + 'CompositeModel(left=..., right=..., prefix=...)', arg='convention',
+                  form='CompositeModel keywords')
+            bare = {**spec, 'prefix': ''}
+            _, bparams, bref = reference(bare)
+            ctx.hit(FC_CONV + 'CompositeModel(left, right) without prefix')
+            judge(lambda: M.CompositeModel(build_leaf(M, spec['left']), build_leaf(M, spec['right'])),  # noqa: B023
+                  bare, bparams, bref, FC_CONV + 'CompositeModel(left, right) without prefix', arg='convention',
+                  form='CompositeModel positional')
+            ctx.hit(FC_CONV + 'left.__add__(right)')
+            judge(lambda: build_leaf(M, spec['left']).__add__(build_leaf(M, spec['right'])),  # noqa: B023
+                  bare, bparams, bref, FC_CONV + 'left.__add__(right)', arg='convention', form='__add__')
+    sig = ('forms', xunit, yunit, shift)
+    return sig, False, case
+
+
+# ------------------------------------------------------ second use / in between ---
+# A model is a value: evaluating it, asking it anything, copying, displaying, pickling, combining or re-prefixing
+# it, a call that was refused -- none of this may change what the same call returns afterwards, nor touch the
+# caller's x / parameters (the closed forms are evaluated in place on temporaries).
+OP_AGAIN = 'the same call again (same dict and Variable objects)'
+OP_REFUSED_NAMES = 'a call refused for its names'
+OP_REFUSED_UNITS = 'a call that failed on units half-way'
+OP_FWHM = 'fwhm asked'
+OP_GUESS = 'guess asked'
+OP_ACCESSORS = 'param_names / param_bounds read and modified by the caller'
+OP_WITH_PREFIX = 'with_prefix copy made and evaluated'
+OP_COMPOSED = 'used as a part of two composites that were evaluated'
+OP_DISPLAY = 'repr / str / format'
+OP_COMPARE = '== / != / hash / bool / vars / dir'
+OP_COPY = 'copy.copy evaluated'
+OP_DEEPCOPY = 'copy.deepcopy evaluated'
+OP_PICKLE = 'pickle round trip evaluated'
+OP_FED_BACK = 'the result fed back as x'
+OP_OTHER_X = 'evaluated at another x (other shape, unit scale, dim)'
+BETWEEN_OPS = [OP_AGAIN, OP_REFUSED_NAMES, OP_REFUSED_UNITS, OP_FWHM, OP_GUESS, OP_ACCESSORS, OP_WITH_PREFIX,
+               OP_COMPOSED, OP_DISPLAY, OP_COMPARE, OP_COPY, OP_DEEPCOPY, OP_PICKLE, OP_FED_BACK, OP_OTHER_X]
+FC_BETWEEN = 'in between: '
+FC_ALIASED = 'aliased arguments: one Variable object for x, loc and scale / for every coefficient'
+
+
+def reuse_case(rng, ctx, mon, M):
+    xunit, yunit, centre, width = modest_setting(rng)
+    dim = pick(rng, DIMS)
+    x = sc.array(dims=[dim], values=centre + width * rng.uniform(-4, 4, size=6), unit=xunit)
+    case = {'kind': 'second use', 'x_unit': xunit, 'y_unit': yunit, 'x': describe_x(x)}
+    specs = [{'kind': k, 'prefix': draw_prefix(rng, ctx)} for k in PEAKS]
+    specs.append({'kind': 'poly', 'prefix': draw_prefix(rng, ctx), 'degree': int(rng.integers(1, 7))})
+    lp, rp = pick(rng, [('b_', 'g_'), ('', 'p_'), ('bkg_', ''), ('a', 'am')])
+    specs.append({'kind': 'comp', 'prefix': draw_prefix(rng, ctx), 'left': {'kind': 'poly', 'prefix': lp, 'degree': 2},
+                  'right': {'kind': pick(rng, PEAKS), 'prefix': rp}})
+    for spec in specs:
+        kind = spec['kind']
+        m = build_model(rng, M, spec, use_add=False)
+        lv = [modest_leaf_values(rng, ctx, leaf, xunit, yunit, centre, width)[0] for leaf in leaves_of(spec)]
+        params = full_params(spec, lv)
+        snap = {k: bits_full(v) for k, v in params.items()}
+        xsnap = bits_full(x)
+        c = dict(case)
+        c['model'] = spec_str(spec)
+        c['params'] = describe_params(params)
+        r0 = safe_call(m, x, params)
+        if not isinstance(r0, sc.Variable):
+            ctx.count('second_use_no_first_result')
+            continue
+        b0 = bits_full(r0)
+
+        def again(op, model=None, p=None, what='second_use_differs'):
+            r = safe_call(model if model is not None else m, x, p if p is not None else params)  # noqa: B023
+            ctx.event('second_use')
+            ctx.hit(FC_BETWEEN + op)
+            if not isinstance(r, sc.Variable) or bits_full(r) != b0:  # noqa: B023
+                ctx.violation(what, f'{spec_str(spec)}: after "{op}" the call returns '  # noqa: B023
+                              f'{"another result" if isinstance(r, sc.Variable) else "no result"} for the same '
+                              f'x and parameters', c, model=kind, op=op)  # noqa: B023
+
+        def quiet(f):
+            try:
+                return f()
+            except Exception:  # noqa: BLE001  (judged by the monitors where it matters)
+                return None
+
+        again(OP_AGAIN)
+        names = sorted(params)
+        drop = pick(rng, names)
+        quiet(lambda: m(x, **{k: v for k, v in params.items() if k != drop}))  # noqa: B023
+        quiet(lambda: m(x, **params, **{drop + '_unknown': params[drop]}))  # noqa: B023
+        again(OP_REFUSED_NAMES)
+        # a parameter of another dimension: the in-place evaluation stops with a unit error half-way
+        victim = next((k for k in reversed(names) if k.endswith(('loc', 'a1'))), names[-1])
+        bad = dict(params)
+        bad[victim] = sc.scalar(float(params[victim].value), unit='K' if params[victim].unit != sc.Unit('K') else 's')
+        quiet(lambda: m(x, **bad))  # noqa: B023
+        again(OP_REFUSED_UNITS)
+        quiet(lambda: m.fwhm(params))  # noqa: B023
+        again(OP_FWHM)
+        d = data_of(r0, x)
+        quiet(lambda: m.guess(d))  # noqa: B023
+        quiet(lambda: m.guess(d, coord=dim))  # noqa: B023
+        again(OP_GUESS)
+        history_probe(m)
+        again(OP_ACCESSORS)
+        q = draw_prefix(rng, ctx, avoid=(spec['prefix'],))
+        m2 = quiet(lambda: m.with_prefix(q))  # noqa: B023
+        if m2 is not None and mon.spec_of(m2) is not None:
+            s2 = {**spec, 'prefix': q}
+            again(OP_WITH_PREFIX, model=m2, p=full_params(s2, lv), what='copy_differs')
+        again(OP_WITH_PREFIX)
+        # part of two composites (left of one, right of the other) with a sibling whose names do not clash
+        sib_spec = {'kind': pick(rng, PEAKS), 'prefix': 'zz9_'}
+        if not (spec_names(sib_spec) & spec_names(spec)):
+            sib = build_leaf(M, sib_spec)
+            sv = modest_leaf_values(rng, ctx, sib_spec, xunit, yunit, centre, width)[0]
+            sp = {'zz9_' + k: v for k, v in sv.items()}
+            for comp in (quiet(lambda: m + sib), quiet(lambda: M.CompositeModel(sib, m, prefix='outer_'))):  # noqa: B023
+                cs = mon.spec_of(comp) if comp is not None else None
+                if cs is not None:
+                    full = {cs['prefix'] + k: v for k, v in {**params, **sp}.items()}
+                    safe_call(comp, x, shuffled(rng, full))
+            again(OP_COMPOSED)
+            r = safe_call(sib, x, sp)
+            if isinstance(r, sc.Variable):
+                ctx.event('second_use')
+        quiet(lambda: (repr(m), str(m), f'{m}', format(m)))  # noqa: B023
+        again(OP_DISPLAY)
+        quiet(lambda: (m == m, m != m, m == m2, hash(m), bool(m), dict(vars(m)), dir(m)))  # noqa: B023
+        again(OP_COMPARE)
+        for op, f in ((OP_COPY, copy.copy), (OP_DEEPCOPY, copy.deepcopy),
+                      (OP_PICKLE, lambda o: pickle.loads(pickle.dumps(o)))):  # noqa: S301
+            st, cm = attempt(lambda: f(m))  # noqa: B023
+            if st == 'raised':
+                ctx.hit(FC_BETWEEN + op)
+                ctx.violation('copy_raised', f'{op.split()[0]} of {spec_str(spec)} raised {type(cm).__name__}: {cm}',
+                              c, model=kind, op=op)
+            else:
+                # the copy is the same model: the structure the original was built with
+                mon._register(cm, spec)
+                again(op, model=cm, what='copy_differs')
+            again(op)
+        safe_call(m, r0, params)
+        again(OP_FED_BACK)
+        x2 = sc.array(dims=['row', dim], values=centre + width * rng.uniform(-4, 4, size=(2, 3)), unit=xunit)
+        safe_call(m, x2, params)
+        safe_call(m, sc.scalar(centre, unit=xunit), params)
+        again(OP_OTHER_X)
+        # the caller's objects are untouched
+        ctx.event('inputs_unchanged_judged')
+        changed = [k for k, v in params.items() if bits_full(v) != snap[k]]
+        if bits_full(x) != xsnap:
+            changed.append('x')
+        if changed:
+            ctx.violation('input_modified', f'{spec_str(spec)}: the caller\'s {changed} changed during evaluation',
+                          c, model=kind)
+    # ---- aliased arguments: one object in several roles
+    ctx.hit(FC_ALIASED)
+    for kind in PEAKS:
+        p = draw_prefix(rng, ctx)
+        m = build_leaf(M, {'kind': kind, 'prefix': p})
+        v = sc.scalar(logu(rng, -2, 2), unit=xunit)
+        vb = bits_full(v)
+        params = {p + 'amplitude': sc.scalar(float(rng.uniform(0.5, 2)), unit=sc.Unit(yunit) * sc.Unit(xunit)),
+                  p + 'loc': v, p + 'scale': v}
+        if kind == 'pvoigt':
+            params[p + 'fraction'] = sc.scalar(float(rng.uniform(0, 1)))
+        safe_call(m, v, params)
+        safe_call(m, x, params)
+        ctx.event('aliased')
+        if bits_full(v) != vb:
+            ctx.violation('input_modified', f'{kind}: the Variable given as x, loc and scale changed', case, model=kind)
+    d = int(rng.integers(1, 7))
+    p = draw_prefix(rng, ctx)
+    m = build_leaf(M, {'kind': 'poly', 'prefix': p, 'degree': d})
+    v = sc.scalar(float(rng.uniform(-2, 2)))
+    vb = bits_full(v)
+    safe_call(m, v, {f'{p}a{i}': v for i in range(d + 1)})
+    ctx.event('aliased')
+    if bits_full(v) != vb:
+        ctx.violation('input_modified', 'poly: the Variable given as x and every coefficient changed', case,
+                      model='poly')
+    sig = ('second use', xunit, yunit, dim)
+    return sig, False, case
+
+
+# ----------------------------------------- every layout / dtype / decoration of x ---
+# "x ... in arbitrary units": x is whatever Variable the caller holds -- 0-d, 1-d, 2-d, transposed, a strided or
+# inner slice, a read-only broadcast, empty, a coordinate of a data array, float32 / integer valued, with
+# variances, with a dim named like a parameter or like a name the implementation uses.  The values at every
+# element are those of the definition at that exact number; the result has the dims and shape of x.
+LAYOUTS = ['0-d', '1-d', '2-d', '2-d transposed', 'strided slice', 'inner slice of 2-d', 'read-only broadcast', 'empty',
+           'length 1', 'coordinate of a data array', 'bin-edge coordinate of a data array', 'float32', 'int64',
+           'int32', '1-d with variances', '0-d with variances', '3-d']
+INTERNAL_DIMS = ['x', 'y', 'amplitude', 'loc', 'scale', 'fraction', 'a0', 'a1', 'params', 'self', 'val', 'left',
+                 'right', 'prefix', 'dim_0', '']
+FC_LAYOUT = 'x layout: '
+FC_DIM = 'x dim named: '
+FC_PARAM_VAR = 'parameters with variances (0-d x / 1-d x)'
+FC_PARAM_INT = 'peak parameters as integer-valued variables (int64)'
+FC_FWHM_VAR = 'fwhm of a scale with variance'
+
+
+def layout_variants(rng, xv, unit):
+    """{layout: Variable} from 12 abscissae."""
+    a = np.asarray(xv, dtype=np.float64)
+    two = sc.array(dims=['u', 'v'], values=a.reshape(3, 4), unit=unit)
+    da = sc.DataArray(sc.array(dims=['t'], values=np.arange(12.0)), coords={'t': sc.array(dims=['t'], values=a,
+                                                                                          unit=unit)})
+    hist = sc.DataArray(sc.array(dims=['t'], values=np.arange(11.0)),
+                        coords={'t': sc.array(dims=['t'], values=np.sort(a), unit=unit)})
+    ints = np.unique(np.rint(a).astype(np.int64))
+    out = {
+        '0-d': sc.scalar(float(a[0]), unit=unit),
+        '1-d': sc.array(dims=['t'], values=a, unit=unit),
+        '2-d': two,
+        '2-d transposed': two.transpose(),
+        'strided slice': sc.array(dims=['t'], values=a, unit=unit)['t', 1::3],
+        'inner slice of 2-d': two['v', 2],
+        'read-only broadcast': sc.scalar(float(a[1]), unit=unit).broadcast(dims=['t', 'u'], shape=[2, 3]),
+        'empty': sc.array(dims=['t'], values=a, unit=unit)['t', 0:0],
+        'length 1': sc.array(dims=['t'], values=a[:1], unit=unit),
+        'coordinate of a data array': da.coords['t'],
+        'bin-edge coordinate of a data array': hist.coords['t'],
+        'float32': sc.array(dims=['t'], values=a.astype(np.float32), unit=unit, dtype='float32'),
+        'int64': sc.array(dims=['t'], values=ints, unit=unit, dtype='int64'),
+        'int32': sc.array(dims=['t'], values=ints.astype(np.int32), unit=unit, dtype='int32'),
+        '1-d with variances': sc.array(dims=['t'], values=a, variances=(1e-3 * (1 + np.abs(a))) ** 2, unit=unit),
+        '0-d with variances': sc.scalar(float(a[2]), variance=float((1e-3 * (1 + abs(a[2]))) ** 2), unit=unit),
+        '3-d': sc.array(dims=['u', 'v', 'w'], values=a.reshape(2, 3, 2), unit=unit),
+    }
+    return out
+
+
+def layout_case(rng, ctx, mon, M):
+    xunit, yunit = pick(rng, X_UNITS), pick(rng, A_UNITS)
+    # scales of a few units so that integer abscissae resolve the curve
+    width = logu(rng, 0.3, 1.5)
+    centre = width * float(rng.uniform(-5, 5))
+    xv = centre + width * rng.uniform(-3, 3, size=12)
+    variants = layout_variants(rng, xv, xunit)
+    case = {'kind': 'layouts', 'x_unit': xunit, 'y_unit': yunit, 'x_hex': [_hex(v) for v in xv]}
+    specs = [{'kind': k, 'prefix': draw_prefix(rng, ctx)} for k in PEAKS]
+    specs.append({'kind': 'poly', 'prefix': draw_prefix(rng, ctx), 'degree': int(rng.integers(1, 5))})
+    lp, rp = pick(rng, [('b_', 'g_'), ('', 'p_'), ('bkg_', ''), ('a', 'am')])
+    specs.append({'kind': 'comp', 'prefix': draw_prefix(rng, ctx), 'left': {'kind': 'poly', 'prefix': lp, 'degree': 1},
+                  'right': {'kind': pick(rng, PEAKS), 'prefix': rp}})
+    for spec in specs:
+        m = build_model(rng, M, spec, use_add=False)
+        lvn = [modest_leaf_values(rng, ctx, leaf, xunit, yunit, centre, width) for leaf in leaves_of(spec)]
+        lv = [a for a, _ in lvn]
+        params = full_params(spec, lv)
+        for lab, xx in variants.items():
+            ctx.hit(FC_LAYOUT + lab)
+            before = bits_full(xx)
+            safe_call(m, xx, shuffled(rng, params))  # judged by the __call__ monitor
+            ctx.event('layout')
+            if bits_full(xx) != before:
+                ctx.violation('input_modified', f'{spec_str(spec)}: the caller\'s x ({lab}) changed during '
+                              f'evaluation', case, model=spec['kind'])
+        for dn in INTERNAL_DIMS:
+            ctx.hit(FC_DIM + repr(dn))
+            safe_call(m, sc.array(dims=[dn], values=xv[:4], unit=xunit), params)
+            safe_call(m, sc.array(dims=['t', dn], values=xv[:6].reshape(2, 3), unit=xunit), params)
+            ctx.event('layout')
+        # parameters with variances: values still right where scipp returns a result
+        ctx.hit(FC_PARAM_VAR)
+        pvar = {k: sc.scalar(float(v.value), variance=float((1e-3 * (abs(v.value) + 1e-3)) ** 2), unit=v.unit)
+                for k, v in params.items()}
+        safe_call(m, variants['0-d'], pvar)
+        safe_call(m, variants['1-d'], pvar)
+        safe_call(m, variants['0-d with variances'], pvar)
+        if spec['kind'] in PEAKS:
+            ctx.hit(FC_FWHM_VAR)
+            try:
+                m.fwhm(pvar)
+            except Exception:  # noqa: BLE001  (judged by the fwhm monitor)
+                pass
+            # integer-valued parameters (an amplitude in counts, a location on a channel number)
+            num = lvn[0][1]
+            ints = {'amplitude': int(np.copysign(max(1, round(abs(num['amplitude']))), num['amplitude'])),
+                    'loc': int(round(num['loc'])), 'scale': max(1, int(round(num['scale'])))}
+            ctx.hit(FC_PARAM_INT)
+            for which in ('amplitude', 'loc', 'scale', 'all'):
+                pint = dict(params)
+                for k, iv in ints.items():
+                    if which in (k, 'all'):
+                        pint[spec['prefix'] + k] = sc.scalar(iv, unit=params[spec['prefix'] + k].unit, dtype='int64')
+                safe_call(m, variants['1-d'], pint)  # (integer x with an integer loc: scipp keeps x - loc integer
+                safe_call(m, variants['2-d'], pint)  # and refuses the in-place division -- not driven)
+    sig = ('layouts', xunit, yunit)
+    return sig, False, case
+
+
+# ------------------------------------- the caller's own model classes as parts ---
+# Model documents its extension point ("Subclasses should override the protected methods _call, _guess, and
+# optionally _param_bounds"): a caller's own model is a Model like any other -- alone, under prefixes, and as a
+# part of composites, where "a composite equals the sum of its parts" whatever classes the parts are (the
+# composite reaches its parts through their public methods).  Also: a subclass of a model of the package that
+# overrides _call.  The names are given to Model.__init__ as a one-shot iterator ("Iterable[str]").
+FC_USER_ALONE = 'own Model subclass evaluated alone (names from a one-shot iterator)'
+FC_USER_LEFT = 'own Model subclass as the left part of a composite'
+FC_USER_RIGHT = 'own Model subclass as the right part of a composite'
+FC_USER_NESTED = 'own Model subclass in a nested, prefixed composite'
+FC_USER_PAIR = 'composite of two own Model subclasses'
+FC_SUB_OVERRIDE = 'subclass of GaussianModel overriding _call, alone and as a part'
+STANDIN_CLASSES = [FC_USER_ALONE, FC_USER_LEFT, FC_USER_RIGHT, FC_USER_NESTED, FC_USER_PAIR, FC_SUB_OVERRIDE]
+_USER = {}
+
+
+def user_classes(M):
+    if 'line' in _USER:
+        return _USER
+
+    class LineModel(M.Model):
+        """h + k x"""
+
+        def __init__(self, *, prefix=''):
+            super().__init__(param_names=iter(('h', 'k')), prefix=prefix)
+
+        def _call(self, x, params):
+            return params['h'] + params['k'] * x
+
+        def _guess(self, x, y):
+            return {'h': sc.min(y), 'k': (sc.max(y) - sc.min(y)) / (sc.max(x) - sc.min(x))}
+
+        def _param_bounds(self):
+            return {'k': (-1e30, 1e30)}
+
+    class DoubledGaussian(M.GaussianModel):
+        """Twice the Gaussian of the package."""
+
+        def _call(self, x, params):
+            return super()._call(x, params) * 2.0
+
+    _USER['line'] = LineModel
+    _USER['gauss2'] = DoubledGaussian
+    return _USER
+
+
+def build_any(M, mon, spec):
+    """Model of a spec that may contain the caller's own classes (registered here: their constructors are the
+    caller's code); composites through the real constructor."""
+    k = spec['kind']
+    if k in ('line', 'gauss2'):
+        m = user_classes(M)[k](prefix=spec['prefix'])
+        mon._register(m, {'kind': k, 'prefix': spec['prefix']})
+        return history_probe(m)
+    if k != 'comp':
+        return build_leaf(M, spec)
+    left, right = build_any(M, mon, spec['left']), build_any(M, mon, spec['right'])
+    if spec['prefix'] == '':
+        return history_probe(left + right)
+    return history_probe(M.CompositeModel(left, right, prefix=spec['prefix']))
+
+
+def standin_case(rng, ctx, mon, M):
+    xunit, yunit, centre, width = modest_setting(rng)
+    dim = pick(rng, DIMS)
+    data = own_curve_data(rng, xunit, yunit, centre, width, dim)
+    case = {'kind': 'own model classes', 'x_unit': xunit, 'y_unit': yunit}
+
+    def leaf(kind):
+        s = {'kind': kind, 'prefix': None}
+        if kind == 'poly':
+            s['degree'] = int(rng.integers(1, 5))
+        return s
+
+    def with_prefixes(tree, prefixes):
+        """tree: nested tuples ('c', left, right) / leaf dicts; prefixes consumed left to right, depth first."""
+        it = iter(prefixes)
+
+        def walk(t):
+            if isinstance(t, dict):
+                return {**t, 'prefix': next(it)}
+            left, right = walk(t[1]), walk(t[2])
+            return {'kind': 'comp', 'prefix': next(it), 'left': left, 'right': right}
+        return walk(tree)
+
+    builtin = lambda: leaf(pick(rng, [*PEAKS, 'poly']))  # noqa: E731
+    plans = [
+        (FC_USER_ALONE, leaf('line'), [draw_prefix(rng, ctx)]),
+        (FC_USER_ALONE, leaf('line'), ['']),
+        (FC_USER_LEFT, ('c', leaf('line'), builtin()), ['u_', 'p_', draw_prefix(rng, ctx)]),
+        (FC_USER_RIGHT, ('c', builtin(), leaf('line')), [draw_prefix(rng, ctx, avoid=('h', 'k', '')), '', '']),
+        (FC_USER_NESTED, ('c', ('c', builtin(), leaf('line')), builtin()),
+         ['b_', 'u_', draw_prefix(rng, ctx, avoid=('',)), 'g_', draw_prefix(rng, ctx)]),
+        (FC_USER_PAIR, ('c', leaf('line'), leaf('line')), ['l1_', 'l2_', draw_prefix(rng, ctx)]),
+        (FC_SUB_OVERRIDE, leaf('gauss2'), [draw_prefix(rng, ctx)]),
+        (FC_SUB_OVERRIDE, ('c', leaf('poly'), leaf('gauss2')), ['', 'd_', '']),
+        (FC_SUB_OVERRIDE, ('c', leaf('gauss2'), ('c', leaf('gauss'), leaf('line'))),
+         ['d_', 'g_', 'u_', draw_prefix(rng, ctx), draw_prefix(rng, ctx)]),
+    ]
+    for label, tree, prefixes in plans:
+        spec = with_prefixes(tree, prefixes)
+        if not names_disjoint(spec):
+            ctx.count('standin_names_overlap')
+            continue
+        try:
+            m = build_any(M, mon, spec)
+        except Exception as e:  # noqa: BLE001
+            ctx.violation('composite_refused_disjoint', f'{spec_str(spec)} could not be built from the caller\'s own '
+                          f'model classes: {type(e).__name__}: {e}', {**case, 'model': spec_str(spec)},
+                          where='own model classes')
+            continue
+        if mon.spec_of(m) != spec:
+            got = mon.spec_of(m)
+            ctx.inconclusive_because('harness: observed model structure differs from the plan: '
+                                     f'{spec_str(got) if got else got} vs {spec_str(spec)}')
+            continue
+        ctx.hit(label)
+        c = dict(case)
+        c['model'] = spec_str(spec)
+        lv = [modest_leaf_values(rng, ctx, lf, xunit, yunit, centre, width)[0] for lf in leaves_of(spec)]
+        params = full_params(spec, lv)
+        n = int(rng.integers(1, 9))
+        x = sc.array(dims=[dim], values=centre + width * rng.uniform(-4, 4, size=n), unit=xunit)
+        safe_call(m, x, shuffled(rng, params))  # pointwise, part by part: the __call__ monitor
+        ctx.event('standin')
+        good = dict(params)
+        good['__x__'] = x
+        check_refusals(rng, ctx, m, list(params), good, ['extra', spec['prefix'] + 'h', 'k', spec['prefix'] + 'a0'])
+        judge_documented_names(ctx, m, spec, c)
+        # guess / param_bounds reach the parts through their public methods: the documented names
+        st, g = attempt(lambda: m.guess(data))  # noqa: B023
+        if st == 'ok' and judge_guess_names(ctx, spec, g, c, 'harness') and data.variances is None:
+            safe_call(m, data.coords[dim], g)
+        st, b = attempt(lambda: m.param_bounds)  # noqa: B023
+        if st == 'ok':
+            judge_bounds_names(ctx, spec, b, c, 'harness')
+            # every part that declares bounds is bounded in the composite under its full name
+            want = {n_ for n_ in spec_names(spec) if n_.endswith(('scale', 'fraction', 'k'))}
+            want = {n_ for n_ in want if name_map(spec)(n_).split(':')[1] in ('scale', 'fraction', 'k')}
+            ctx.event('standin_bounds')
+            if isinstance(b, dict) and {plain(k) for k in b} != want:
+                ctx.violation('bounds_names', f'{spec_str(spec)}.param_bounds has names {sorted(b)}, the parts declare '
+                              f'bounds for {sorted(want)}', c, model=spec['kind'], where='param_bounds',
+                              seen_by='harness', own_prefix='empty' if spec['prefix'] == '' else 'non-empty')
+        else:
+            ctx.violation('bounds_raised', f'param_bounds of {spec_str(spec)} raised {type(b).__name__}: {b}', c,
+                          model=spec['kind'])
+        # under another prefix: bitwise the same values
+        q = draw_prefix(rng, ctx, avoid=(spec['prefix'],))
+        st, m2 = attempt(lambda: m.with_prefix(q))  # noqa: B023
+        if st == 'ok' and mon.spec_of(m2) is not None:
+            s2 = {**spec, 'prefix': q}
+            res = [(spec['prefix'], safe_call(m, x, params)), (q, safe_call(m2, x, full_params(s2, lv)))]
+            check_prefix_bitwise(ctx, res, 'value', c, spec['kind'])
+    sig = ('own model classes', xunit, yunit, dim)
+    return sig, False, case
+
+
+# ------------------------------------------------------------- heavy sizes ---
+HEAVY_SHAPES = {'1-d, 2**20 + 7': (2 ** 20 + 7,), '2-d, 3 x 400001': (3, 400001)}
+FC_HEAVY = 'heavy x: '
+
+
+def heavy_case(rng, ctx, mon, M):
+    """x far beyond any block size (model.py has no literal size; scipp parallelises above thresholds of its own):
+    every element is judged pointwise like any other."""
+    xunit, yunit = pick(rng, X_UNITS), pick(rng, A_UNITS)
+    width = logu(rng, -1, 1)
+    centre = width * float(rng.uniform(-20, 20))
+    specs = [{'kind': k, 'prefix': draw_prefix(rng, ctx)} for k in PEAKS]
+    specs.append({'kind': 'poly', 'prefix': draw_prefix(rng, ctx), 'degree': int(rng.integers(1, 7))})
+    specs.append({'kind': 'comp', 'prefix': draw_prefix(rng, ctx), 'left': {'kind': 'poly', 'prefix': 'b_', 'degree': 2},
+                  'right': {'kind': pick(rng, PEAKS), 'prefix': ''}})
+    case = {'kind': 'heavy', 'x_unit': xunit, 'y_unit': yunit, 'specs': [spec_str(s) for s in specs]}
+    for label, shape in HEAVY_SHAPES.items():
+        n = int(np.prod(shape))
+        xv = centre + width * rng.uniform(-8, 8, size=n)
+        xv[:: 4099] = centre
+        dims = ['t'] if len(shape) == 1 else ['spectrum', 't']
+        x = sc.array(dims=dims, values=xv.reshape(shape), unit=xunit)
+        for spec in specs:
+            m = build_model(rng, M, spec, use_add=False)
+            lv = [modest_leaf_values(rng, ctx, leaf, xunit, yunit, centre, width)[0] for leaf in leaves_of(spec)]
+            safe_call(m, x, full_params(spec, lv))
+            ctx.hit(FC_HEAVY + label)
+            ctx.event('heavy')
+            ctx.case(('heavy', label, spec['kind']))
+    return ('heavy', xunit, yunit), False, case
+
+
 def in_situ_fit(rng, ctx, mon, M):
     """The models evaluated inside the real fitting pipeline, with the monitors armed."""
     from scippneutron.peaks import fit_peaks
@@ -2616,10 +3617,10 @@ def in_situ_fit(rng, ctx, mon, M):
 
 # -------------------------------------------------------------------- driver ---
 def plan(tier, seed):
-    n_shards = 16
-    sets = 131 if tier == 'quick' else 6250
-    fits = 1 if tier == 'quick' else 12
-    return [{'sets': sets, 'fits': fits} for _ in range(n_shards)]
+    if tier == 'quick':
+        # 15 shards + the heavy sizes on a shard of their own
+        return [{'sets': 140, 'fits': 1} for _ in range(15)] + [{'sets': 0, 'fits': 0, 'heavy': True}]
+    return [{'sets': 6250, 'fits': 12, 'heavy': i == 15} for i in range(16)]
 
 
 def requirements(tier):
@@ -2639,6 +3640,19 @@ def requirements(tier):
               'prefix:nested pair', 'scalar x', '|loc| > 1e6 scale', 'amplitude < 0', 'x == loc',
               'gaussian tail 10..38 sigma', 'polynomial near a root'] + [f'degree {d}' for d in range(1, 7)]
     forced += UNIT_CLASSES_POLY + UNIT_CLASSES_PEAK + UNIT_CLASSES_COMP + GUESS_CLASSES
+    forced += FORM_CLASSES + [FC_BETWEEN + op for op in BETWEEN_OPS] + [FC_ALIASED]
+    forced += [FC_LAYOUT + k for k in LAYOUTS] + [FC_DIM + repr(d) for d in INTERNAL_DIMS]
+    forced += [FC_PARAM_VAR, FC_PARAM_INT, FC_FWHM_VAR] + STANDIN_CLASSES + [FC_HEAVY + k for k in HEAVY_SHAPES]
+    ev.update({'form_judged': 2000, 'second_use': 500, 'inputs_unchanged_judged': 40, 'aliased': 30, 'layout': 500,
+               'variances.values_judged': 50, 'variances.refusal': 50, 'fwhm_variance': 20, 'standin': 50,
+               'standin_bounds': 50, 'pointwise.line': 50, 'pointwise.gauss2': 20, 'heavy': 10,
+               'degree_property_judged': 100, 'prefix_property_judged': 500})
+    for lab in ('numpy integer', 'IntEnum member', 'int subclass'):
+        ev['init.degree_form: ' + lab] = 8
+    for lab in ('numpy.str_', '(str, Enum) / StrEnum member', 'str subclass'):
+        ev['init.prefix_form: ' + lab] = 8
+    for mk in MAPPINGS.values():
+        ev['fwhm_mapping: ' + type(mk({'a': 1, 'b': 2})).__name__] = 8
     ev.update({'guess_names_judged': 100, 'bounds_names_judged': 100, 'param_names_judged': 100,
                'guess_roundtrip': 100, 'guess_coord_judged': 100, 'guess.coord=None': 20, 'guess.coord=name': 20})
     for c in (GC_CTOR, GC_WITH, GC_NEST_L, GC_NEST_R, GC_NEST_BOTH, GC_OUTER_ONLY, GC_REPREFIX, GC_UNPREFIX, GC_LEAF):
@@ -2671,7 +3685,7 @@ def run(shard, ctx):
             r = rng.random()
             # every kind first (incl. one family of related prefixes per model kind, with a base prefix for
             # which every relation exists: a deterministic part of every shard), then the mixture
-            pick = i if i < 19 else None
+            pick = i if i < 23 else None
             fam_kinds = (*PEAKS, 'poly', 'comp')
             mon.dict_kind = None
             try:
@@ -2699,6 +3713,16 @@ def run(shard, ctx):
                     # guess / param_bounds / param_names of every structure that carries prefixes x every way to
                     # name the independent variable: a deterministic part of every shard
                     sig, trivial, case = guess_case(rng, ctx, mon, M)
+                elif pick == 19 or (pick is None and r >= 0.9625):
+                    # every documented argument in every class an integer / a string / a mapping comes in, every
+                    # calling convention: a deterministic part of every shard
+                    sig, trivial, case = forms_case(rng, ctx, mon, M)
+                elif pick == 20 or (pick is None and r >= 0.96):
+                    sig, trivial, case = reuse_case(rng, ctx, mon, M)
+                elif pick == 21 or (pick is None and r >= 0.9575):
+                    sig, trivial, case = layout_case(rng, ctx, mon, M)
+                elif pick == 22 or (pick is None and r >= 0.955):
+                    sig, trivial, case = standin_case(rng, ctx, mon, M)
                 elif pick is None and r < 0.94:
                     sig, trivial, case = composite_case(rng, ctx, mon, M)
                 else:
@@ -2710,6 +3734,13 @@ def run(shard, ctx):
             ctx.case(sig, trivial=trivial)
             if i < 1 or (ctx.n_violations > before and len(ctx.samples) < 6):
                 ctx.sample(case)
+        if shard.get('heavy'):
+            mon.reg.clear()
+            try:
+                sig, trivial, case = heavy_case(rng, ctx, mon, M)
+                ctx.case(sig, trivial=trivial)
+            except Exception:  # noqa: BLE001
+                ctx.oracle_error('C16 heavy driver')
         for _ in range(shard['fits']):
             mon.reg.clear()
             try:
